@@ -1169,6 +1169,25 @@ def _range_collapse_bounds(ctx, rep, tier):
     # in-scan emission happens at i > range_start, so range_start indexes an existing element there
     loop = model.parents.get(model.parents.get(inscan))
     rep.check(isinstance(loop, ast.For) and ast.unparse(loop.iter) == "range(start_idx + 1, len(on_values_remaining))", "C18.r", q, "in-scan test runs at an index beyond range_start (element exists)", "scan loop bounds changed")
+    # the DFA dumper carries a copy of the same scan (F-100): sibling agreement on the closing guard
+    dq = "debug_dump_dfa.build_label_onvalues"
+    if dq in model.functions:
+        dfn = model.functions[dq]
+        difs = [n for n in ast.walk(dfn) if isinstance(n, ast.If) and "range_end - range_start >= ProgramData.option(ProgramOption.COLLAPSED_RANGE_LENGTH)" in ast.unparse(n.test)]
+        dclosing = max(difs, key=lambda n: n.lineno) if difs else None
+        rep.check(dclosing is not None and re.match(r"range_start < len\(on_values_remaining\) and ", ast.unparse(dclosing.test)) is not None, "C18.r", dq,
+                  "the dumper's copy of the closing test has the same guard", "`-ddfa --collapsed-range-length 0` raises IndexError in the dumper's copy of the range scan for every program "
+                  "(every machine has an Else-only transition); the code generator's copy has the guard")
+    # dump options are options: what they need is checked, what they are handed exists (F-101, F-102)
+    mn = model.func("main")
+    msrc = ast.unparse(mn)
+    rep.check(re.search(r"if ProgramData\.dump\(DebugDumpable\.AST\) and pctx\.ast is not None:", msrc) is not None and
+              any(isinstance(i, ast.If) and ast.unparse(i.test) == "ast is None" and isinstance(i.body[-1], ast.Return) for i in model.func("debug_dump_ast").body), "C18.r", "main",
+              "-dast: no tree (a parser / body made of actions only) is not followed", "`-dast` on a parser or loop body made of actions only dies with AttributeError on None before compile() reports it")
+    gate = [i for i in ast.walk(mn) if isinstance(i, ast.If) and "not debug_enabled" in ast.unparse(i.test) and any(isinstance(x, ast.Call) and ast.unparse(x.func) == "exit" for x in ast.walk(i))]
+    rep.check(len(gate) == 1 and all(k in msrc for k in ("DebugDumpable.AST", "DebugDumpable.DFA", "DEBUG_DTREE_AS_GRAPH")) and "except ImportError" in msrc, "C18.r", "main",
+              "graph dumps are refused with a message when graphviz / pydot cannot be imported", "`-dast` / `-ddfa` / `-dparse` / `-ddtree` as graph end in NameError / RuntimeError / ModuleNotFoundError "
+              "tracebacks when the optional graphviz / pydot packages are missing (a plain `pip install nmfu`)")
 
 
 _run8 = run
